@@ -6,6 +6,7 @@ package main
 
 import (
 	"bytes"
+	"image/color"
 	"encoding/binary"
 	"fmt"
 	"math"
@@ -30,6 +31,15 @@ func allTables() map[string][]uint32 {
 			d8[v] = math.Float32bits(s.from8(uint8(v)))
 		}
 		t["decode8:"+s.name], t["decode16:"+s.name] = d8, d16
+	}
+	// the generic constructor on opaque 16-bit greys, every space (Display P3 included)
+	for _, s := range spaces {
+		c16 := make([]uint32, 65536)
+		for v := 0; v < 65536; v++ {
+			r, _, _, _ := s.encoded(color.RGBA64{R: uint16(v), G: uint16(v), B: uint16(v), A: 0xffff})
+			c16[v] = math.Float32bits(r)
+		}
+		t["decode-ctor16:"+s.name] = c16
 	}
 	e := dumpEncTables()
 	for k, v := range e.t8 {
@@ -79,13 +89,25 @@ func parseTableDump(b []byte) map[string][]uint32 {
 // kinds: "decode" or "encode" (which tables belong to the calling property)
 func gomaxprocsSweep(c *ctx, prop, kind string) {
 	own := allTables()
-	for _, k := range []int{1, 2, 3, 5, 6, 7, 12, 24} {
+	// k = 386: the same program built for a 32-bit platform (GOARCH=386), when bin/check could build it
+	bin386 := os.Getenv("VERIF_ROOT") + "/build/bin/vharness386"
+	ks := []int{1, 2, 3, 5, 6, 7, 12, 24}
+	if _, err := os.Stat(bin386); err == nil {
+		ks = append(ks, 386)
+	} else {
+		c.res.Notes = append(c.res.Notes, "no GOARCH=386 build of the harness: 32-bit platform sweep skipped")
+	}
+	for _, k := range ks {
 		cmd := exec.Command(os.Args[0], "tabledump")
 		cmd.Env = append(os.Environ(), fmt.Sprintf("GOMAXPROCS=%d", k))
+		if k == 386 {
+			cmd = exec.Command(bin386, "tabledump")
+			cmd.Env = os.Environ()
+		}
 		out, err := cmd.Output()
 		c.res.count("gomaxprocs-sweep", fmt.Sprint(prop, kind, k), true)
 		if err != nil {
-			c.res.fail(Failure{Class: prop + ":gomaxprocs:process", Desc: fmt.Sprintf("building the tables under GOMAXPROCS=%d failed", k), Input: map[string]interface{}{"GOMAXPROCS": k}, Got: err.Error(), Want: "tables"})
+			c.res.fail(Failure{Class: prop + ":gomaxprocs:process", Desc: fmt.Sprintf("building the tables under GOMAXPROCS=%d (386 = the GOARCH=386 build) failed", k), Input: map[string]interface{}{"GOMAXPROCS": k}, Got: err.Error(), Want: "tables"})
 			continue
 		}
 		child := parseTableDump(out)
@@ -100,7 +122,7 @@ func gomaxprocsSweep(c *ctx, prop, kind string) {
 					if i < len(theirs) {
 						got = fmt.Sprintf("%#x", theirs[i])
 					}
-					c.res.fail(Failure{Class: prop + ":gomaxprocs:" + name, Desc: fmt.Sprintf("table %s built in a process with GOMAXPROCS=%d differs at index %d from the one built here", name, k, i),
+					c.res.fail(Failure{Class: prop + ":gomaxprocs:" + name, Desc: fmt.Sprintf("table %s built in a process with GOMAXPROCS=%d (386 = the GOARCH=386 build) differs at index %d from the one built here", name, k, i),
 						Input: map[string]interface{}{"GOMAXPROCS": k, "table": name, "index": i}, Got: got, Want: fmt.Sprintf("%#x", mine[i])})
 					break
 				}
